@@ -1,6 +1,7 @@
 package sqlm
 
 import (
+	"math/big"
 	"math"
 	"strings"
 )
@@ -40,7 +41,7 @@ func kindOf(v any) int {
 		return 0
 	case bool:
 		return 1
-	case float64:
+	case float64, ExactInt:
 		return 2
 	case string:
 		return 3
@@ -48,10 +49,37 @@ func kindOf(v any) int {
 	return 4
 }
 
+// ExactInt is a 64-bit integer column value that a double cannot hold (|v| >= 2^53): it takes part
+// in comparisons by its exact value; arithmetic on it is left unspecified.
+type ExactInt int64
+
+func exactRat(v any) *big.Rat {
+	switch t := v.(type) {
+	case ExactInt:
+		return new(big.Rat).SetInt64(int64(t))
+	case float64:
+		r := new(big.Rat)
+		if r.SetFloat64(t) == nil {
+			return nil
+		}
+		return r
+	}
+	return nil
+}
+
 // compareVals orders two non-NULL scalars of the same kind.
 func compareVals(a, b any) (int, bool) {
 	if kindOf(a) != kindOf(b) {
 		return 0, false
+	}
+	_, ea := a.(ExactInt)
+	_, eb := b.(ExactInt)
+	if ea || eb {
+		x, y := exactRat(a), exactRat(b)
+		if x == nil || y == nil {
+			return 0, false
+		}
+		return x.Cmp(y), true
 	}
 	switch x := a.(type) {
 	case float64:
@@ -119,6 +147,9 @@ func normNum(v any) any {
 	case int32:
 		return float64(t)
 	case int64:
+		if t >= 1<<53 || t <= -(1<<53) {
+			return ExactInt(t)
+		}
 		return float64(t)
 	case uint:
 		return float64(t)
@@ -202,10 +233,15 @@ func Eval(e Expr, row map[string]any, env *Env) (v any, ok bool) {
 			case "^":
 				o = a ^ b
 			case "<<":
-				if b >= 53 {
+				switch {
+				case b >= 64 || a == 0:
+					// every bit is shifted out of a 64-bit operand, whatever its signedness
+					o = 0
+				case b >= 53:
 					return nil, false
+				default:
+					o = a << uint(b)
 				}
-				o = a << uint(b)
 			case ">>":
 				if b >= 64 {
 					o = 0
